@@ -231,7 +231,6 @@ def k2_sequence(m0: int, f0: int, t0: int, m1: int, f1: int, t1: int, tcfg: int,
     for spec, co in zip(specs, seq.cases):
         ok = ok and not co.problems and co.status == L.expected_status(spec)
     ok = ok and seq.cases[-1].trace == L.full_trace() and seq.cases[-1].n_probes == len(L.full_trace())
-    ok = ok and len(seq.roots) == len([1 for sp in specs if L.expects_sandbox(sp)])
     return ob.post(ok)
 
 
